@@ -77,14 +77,14 @@ func slots() [][]*D {
 		{lf("d", "1.50"), lf("d", "-0.01"), lf("d", "92233720368547758.07"), lf("d", "3")},
 		{lf("b", "true"), lf("b", "false")},
 		{lf("e", "")},
-		{lf("s", ""), lf("s", "a"), lf("s", "q\"\\<&é\n\t>"), lf("s", " lead and trail ")},
+		{lf("s", ""), lf("s", "a"), lf("s", "q\"\\<&é\n\t>"), lf("s", " lead and trail "), lf("s", "C:\\temp\\new"), lf("s", "a\\u0041b\\.\\s"), lf("s", "/"), lf("s", "\x7f"), lf("s", "<!--x-->]]>")},
 		{lf("en", "x")},
 		{lf("idr", "one"), lf("idr", "b:two"), lf("idr", "dup"), lf("idr", "b:dup")},
 		{lf("idrb", "two"), lf("idrb", "a:one"), lf("idrb", "dup"), lf("idrb", "a:dup")},
 		{lf("un", "5"), lf("un", "auto")},
-		{lf("ll", "b", "a"), lf("ll", "a"), lf("ll", "z", "y", "x")},
+		{lf("ll", "b", "a"), lf("ll", "a"), lf("ll", "z", "y", "x"), lf("ll", "x\\ty", "\\\\")},
 		{lf("ls", "3", "1", "2"), lf("ls", "255")},
-		{{Name: "li", Kids: []*D{entry("k2", lf("v", "1")), entry("k1")}}, {Name: "li", Kids: []*D{entry("only", lf("v", "-5"))}}},
+		{{Name: "li", Kids: []*D{entry("k2", lf("v", "1")), entry("k1")}}, {Name: "li", Kids: []*D{entry("only", lf("v", "-5"))}}, {Name: "li", Kids: []*D{entry("k\\n1"), entry("k 2\"")}}},
 		{{Name: "ls2", Kids: []*D{entry("3"), entry("1", lf("w", "ww"))}}},
 		{{Name: "in"}, {Name: "in", Kids: []*D{lf("x", "inner")}}},
 		{lf("fromb", "v")},
